@@ -15,17 +15,16 @@ EXPLANATION = (
     "table and carquet_decode_plain's type->decoder table name the same PLAIN codec per physical type "
     "and refuse unknown types; (2) nothing buffered is lost: every success path of "
     "carquet_column_writer_finalize passes flush_current_page, flush_current_page runs "
-    "finalize -> append -> reset in that order, carquet_row_group_writer_finalize finalizes and appends "
-    "every column 0..num_columns-1; (3) every status on the write path (src/writer/*, the RLE and "
+    "finalize -> append -> reset in that order, carquet_row_group_writer_finalize, executed for 0..3 columns x failure "
+    "position, finalizes every column in order and appends exactly the bytes each returned; (3) every status on the write path (src/writer/*, the RLE and "
     "PLAIN encoders, buffer.c) is consumed on every path; (4) the hybrid level encoder never pads in "
     "mid-stream (shared with C11.1) and PLAIN encoders append exactly what the decoders consume "
     "(C11.2); (5) PLAIN BYTE_ARRAY by cursor-skeleton execution over abstract inputs (length fields "
     "drawn from {0,1,5}, contents unknown, 0..3 values): the decoder accepts every exactly fitting "
     "page - including a trailing empty string - with consumed = sum(4+len), rejects a page one byte "
-    "short, never reads outside the page, and the encoder appends sum(4+len) bytes; (6) compress_data stores the caller's bytes only under "
-    "codec == UNCOMPRESSED and the compressor's own buffer/size otherwise, decompress_page writes its "
-    "output only inside the switch over the codec and only the UNCOMPRESSED arm copies raw bytes (no "
-    "size-based shortcut on either side). Decides these "
+    "short, never reads outside the page, and the encoder appends sum(4+len) bytes; (6) compress_data and decompress_page, executed once per "
+    "codec value, store/copy the caller's bytes only for UNCOMPRESSED and otherwise use exactly that codec's "
+    "compressor/decompressor with the full buffers, whatever the sizes (no size-based shortcut). Decides these "
     "clauses, not value/null-position equality (the multi-batch level layout is a known value-level "
     "limitation described in DESIGN.md).")
 
